@@ -85,6 +85,7 @@ OtherByte(c) == IF c = 97 THEN 98 ELSE 97
 Mut1(w, m) ==
     CASE m.k = "uribyte"  -> [w EXCEPT !.uri = SetAt(@, m.pos, OtherByte(@[m.pos]))]
       [] m.k = "uri"      -> [w EXCEPT !.uri = m.v]
+      [] m.k = "uripre"   -> [w EXCEPT !.uri = m.v \o @]        \* origin form -> absolute form
       [] m.k = "hdrbyte"  -> [w EXCEPT !.headers[m.h][2] = SetAt(@, m.pos, OtherByte(@[m.pos]))]
       [] m.k = "hdrset"   -> [w EXCEPT !.headers[m.h][2] = m.v]
       [] m.k = "hdrname"  -> [w EXCEPT !.headers[m.h][1] = m.v]
@@ -164,7 +165,8 @@ CaseOfBundle(b, id) ==
         w   == WireOf(b)
     IN [op |-> "req", id |-> id, method |-> w.method, uri |-> w.uri, version |-> w.version,
         headers |-> w.headers, body |-> w.body, cfg |-> b.cfg, script |-> b.script, sign |-> dir,
-        leak |-> Family \in {"leak_defects", "leak_scripts", "leak_sigmut"}]
+        leak |-> Family \in {"leak_defects", "leak_scripts", "leak_sigmut", "leak_long"}
+                 \/ (Family = "cfgmix" /\ id[9] = 2)]
 
 FirstRuleOf(b) == Q(EnvOfWire(MkX(b.L)), b.cfg).err.rule
 
@@ -259,7 +261,10 @@ SpellRecipe(w, k) ==
                       [k |-> "hdrs", v |-> GroupLastFirst([h \in 1..Len(w.headers) |->
                                              IF LowerSeq(w.headers[h][1]) = bAuthorization THEN <<UpperSeq(w.headers[h][1]), w.headers[h][2]>>
                                              ELSE <<UpperSeq(w.headers[h][1]), SpaceOut(w.headers[h][2])>>])] >>
-NumSpell == 12
+      \* the same target in absolute form (what a client sends to a proxy; the http crate keeps scheme and authority)
+      [] k = 13 -> << [k |-> "uripre", v |-> B("https://example.amazonaws.com")] >>
+      [] k = 14 -> << [k |-> "uripre", v |-> B("HTTP://other.example:8080")] >>
+NumSpell == 14
 
 \* C01: structural single-component mutations of the rich request
 StructMut(w, k) ==
@@ -502,7 +507,24 @@ DupCases == <<
     WithPost(QryB, << QUri(QPre \o B("&X-Amz-Date=20150830T123600Z&X-Amz-SignedHeaders=host&X-Amz-Signature=00&X-Amz-Signature=") \o bSIG) >>, NoOver),
     WithPost(QryB, << QUri(QPre \o B("&X-Amz-Date=20150830T123600Z&X-Amz-Security-Token=tokenONE&X-Amz-Security-Token=tokenTWO&X-Amz-SignedHeaders=host&X-Amz-Signature=") \o bSIG) >>, NoOver),
     \* an X-Amz-Date header on a query-carrier request is not consulted
-    WithPost(QryB, << [k |-> "hdrins", at |-> 2, name |-> B("X-Amz-Date"), v |-> TsB] >>, NoOver)
+    WithPost(QryB, << [k |-> "hdrins", at |-> 2, name |-> B("X-Amz-Date"), v |-> TsB] >>, NoOver),
+    \* ... a stale presigned URL is not refreshed by a fresh date header, a fresh one is not spoiled by a stale header
+    WithPost([QryB EXCEPT !.L.ts = B("20150830T120000Z")], << [k |-> "hdrins", at |-> 2, name |-> B("X-Amz-Date"), v |-> TsA] >>, NoOver),
+    WithPost([QryB EXCEPT !.L.ts = B("20150830T120000Z")], << [k |-> "hdrins", at |-> 2, name |-> B("Date"), v |-> TsA] >>, NoOver),
+    WithPost(QryB, << [k |-> "hdrins", at |-> 2, name |-> B("X-Amz-Date"), v |-> B("20150830T120000Z")] >>, NoOver),
+    WithPost(QryB, << [k |-> "hdrins", at |-> 2, name |-> B("Date"), v |-> B("20150829T120000Z")] >>, NoOver),
+    \* two Content-Type headers with folding enabled: the first one decides whether the body is a form
+    WithPost([HdrB EXCEPT !.cfg.fold = TRUE, !.L.method = B("POST"), !.L.body = B("a=1"),
+                          !.L.hdrs = @ \o << FormHdr, <<B("Content-Type"), B("text/plain")>> >>,
+                          !.L.signed = <<B("content-type"), B("host"), B("x-amz-date")>>], <<>>, NoOver),
+    WithPost([HdrB EXCEPT !.cfg.fold = TRUE, !.L.method = B("POST"), !.L.body = B("a=1"),
+                          !.L.hdrs = @ \o << <<B("Content-Type"), B("text/plain")>>, FormHdr >>,
+                          !.L.signed = <<B("content-type"), B("host"), B("x-amz-date")>>], <<>>, NoOver),
+    WithPost([QryB EXCEPT !.cfg.fold = TRUE, !.L.method = B("POST"), !.L.body = B("a=1"),
+                          !.L.hdrs = @ \o << <<B("Content-Type"), B("application/x-www-form-urlencoded; charset=klingon")>>, FormHdr >>], <<>>, NoOver),
+    \* ... and on the header carrier an X-Amz-Date query parameter is an ordinary (signed) parameter
+    WithPost([HdrB EXCEPT !.L.query = B("X-Amz-Date=20150830T120000Z")], <<>>, NoOver),
+    WithPost([HdrB EXCEPT !.L.ts = B("20150830T120000Z"), !.L.query = B("X-Amz-Date=20150830T123600Z")], <<>>, NoOver)
     >>
 
 \* ---------------------------------------------------------------- C08 material
@@ -595,14 +617,21 @@ Dim(k) ==
       \* Bound 0: URL and body lists of <= 1 component, bodies as sent; 1: three lists (incl. the same name in both)
       \* with body variants and post-signing body flips; 2: every pair of lists of <= 2 components
       [] Family = "fold"     -> V(CASE Bound = 0 -> <<2, 7, 7, Len(ContentTypes), 2, 1, 1>>
-                                    [] Bound = 1 -> <<2, 3, 3, 6, 2, 5, 2>>
+                                    [] Bound = 1 -> <<2, 3, 3, 6, 3, 5, 3>>
                                     [] OTHER -> <<2, 43, 43, Len(ContentTypes), 2, 1, 2>>, k)
       [] Family = "dup"      -> V(<<Len(DupCases)>>, k)
+      \* carrier, folding, requirement kind, which header it concerns, is that header signed
+      [] Family = "reqfold"  -> V(<<2, 2, 4, 4, 2>>, k)
+      \* carrier, component, shift, length
+      [] Family = "leak_long" -> V(<<2, 6, 2, 3>>, k)
+      \* the full product of configuration switches: carrier, S3, folding, requirement container, body type, provider
+      \* kind, session token, logger, target form, request shape, defect
+      [] Family = "cfgmix"   -> V(<<2, 2, 2, 3, 3, 2, 2, 2, 2, 3, 4>>, k)
       [] Family = "forever"  -> V(<<2, 3, 2>>, k)
       [] Family = "s3hash"   -> V(<<2, 2, 4, 2, 2>>, k)
       [] Family = "akid"     -> V(<<2, 5, 3>>, k)
       [] Family = "zerokey"  -> V(<<2, 4>>, k)
-      [] Family = "ioerr"    -> V(<<4, 2, 2>>, k)
+      [] Family = "ioerr"    -> V(<<8, 2, 2>>, k)
       [] Family = "adapter"  -> V(<<2, 3, 4, 4>>, k)
       [] Family = "logical"  -> V(<<Len(Logical)>>, k)
       [] Family = "suite"    -> V(<<Len(Wires), 2, 2>>, k)
@@ -727,11 +756,60 @@ BundleOf ==
                           [] idx[6] = 5 -> <<255, 254>> \o body0                              \* UTF-16 byte-order mark: not UTF-8
                 L1   == [b.L EXCEPT !.method = B("POST"), !.query = FoldList(idx[2]), !.body = body,
                                     !.hdrs = @ \o (IF ct = <<>> THEN <<>> ELSE << <<B("Content-Type"), ct>> >>)]
-            IN [b EXCEPT !.L = [L1 EXCEPT !.signed = SignAll(L1)], !.cfg.fold = Bool(idx[5]),
+            \* idx[5]: folding off / on / on together with the (unrelated) S3 flag
+            IN [b EXCEPT !.L = [L1 EXCEPT !.signed = SignAll(L1)], !.cfg.fold = idx[5] >= 2, !.cfg.s3 = idx[5] = 3,
                          !.post = IF idx[7] = 2 /\ body # <<>>
                                   THEN << [k |-> "body", v |-> SetAt(body, Len(body), IF body[Len(body)] = 49 THEN 50 ELSE 49)] >>
+                                  ELSE IF idx[7] = 3 THEN << [k |-> "uripre", v |-> B("https://example.amazonaws.com")] >>
                                   ELSE <<>>]
       [] Family = "dup" -> DupCases[idx[1]]
+      [] Family = "reqfold" ->
+            \* signed-header requirements x form folding: the requirement is judged on the headers as submitted
+            LET b     == Bundle0(CarrierOf(idx[1]))
+                names == <<B("Content-Length"), B("Content-Type"), B("X-Amz-Meta-A"), B("X-Amz-Security-Token")>>
+                n     == names[idx[4]]
+                base  == IF idx[1] = 1 THEN <<B("host"), B("x-amz-date")>> ELSE <<B("host")>>
+                L1    == [b.L EXCEPT !.method = B("POST"), !.body = B("a=1"), !.query = B("b=2"),
+                                     !.hasToken = TRUE, !.token = TokenV,
+                                     !.hdrs = @ \o << <<B("Content-Type"), B("application/x-www-form-urlencoded")>>,
+                                                      <<B("Content-Length"), B("3")>>, <<B("X-Amz-Meta-A"), B("1")>> >>]
+            IN [b EXCEPT !.L = [L1 EXCEPT !.signed = SortLex(base \o (IF idx[5] = 1 THEN <<LowerSeq(n)>> ELSE <<>>))],
+                         !.cfg.fold = Bool(idx[2]),
+                         !.cfg.always = IF idx[3] = 1 THEN <<n>> ELSE <<>>,
+                         !.cfg.ifin   = IF idx[3] = 2 THEN <<n>> ELSE <<>>,
+                         !.cfg.prefix = CASE idx[3] = 3 -> <<SubSeq(n, 1, Len(n) - 2)>> [] idx[3] = 4 -> <<SubSeq(LowerSeq(n), 1, 3)>> [] OTHER -> <<>>]
+      [] Family = "cfgmix" ->
+            LET b     == Bundle0(CarrierOf(idx[1]))
+                kinds == <<"bytes", "vec", "unit">>
+                bk    == kinds[idx[5]]
+                body  == IF bk = "unit" THEN <<>> ELSE CASE idx[10] = 1 -> <<>> [] idx[10] = 2 -> B("x=1&k=w") [] OTHER -> <<0, 255, 38, 61>>
+                ct    == CASE idx[10] = 1 -> <<>> [] idx[10] = 2 -> << FormHdr >>
+                           [] OTHER -> << <<B("Content-Type"), B("application/octet-stream")>> >>
+                L1    == [b.L EXCEPT !.method = IF idx[10] = 1 THEN B("GET") ELSE B("POST"), !.path = B("/p/%7Ea//b"),
+                                     !.query = B("k=v&k=u"), !.hdrs = @ \o ct, !.body = body,
+                                     !.hasToken = Bool(idx[7]), !.token = IF Bool(idx[7]) THEN TokenV ELSE <<>>]
+                b2    == [b EXCEPT !.L = [L1 EXCEPT !.signed = SignAll(L1)],
+                                   !.cfg.s3 = Bool(idx[2]), !.cfg.fold = Bool(idx[3]), !.cfg.reqimpl = ReqImpls[idx[4]],
+                                   !.cfg.bodykind = bk, !.cfg.provider = IF Bool(idx[6]) THEN "fn" ELSE "scripted",
+                                   !.cfg.always = <<B("Host")>>, !.cfg.prefix = <<B("x-amz-meta-")>>,
+                                   !.post = IF Bool(idx[9]) THEN << [k |-> "uripre", v |-> B("https://example.amazonaws.com")] >> ELSE <<>>,
+                                   !.script.principal = 1000 + idx[4] * 100 + idx[5] * 10 + idx[10]]
+            IN CASE idx[11] = 1 -> b2 [] idx[11] = 2 -> Inject(b2, 16, 1) [] idx[11] = 3 -> Inject(b2, 11, 1)
+                 [] OTHER -> Inject(b2, 9, 2)
+      [] Family = "leak_long" ->
+            \* long components with two-byte characters at every byte offset (shift 0 / 1), logger enabled at Trace level
+            LET b    == Bundle0(CarrierOf(idx[1]))
+                len  == <<40, 100, 300>>[idx[4]]
+                wide == Cat([i \in 1..len |-> <<195, 169>>])                       \* e-acute, UTF-8
+                v    == (IF idx[3] = 2 THEN <<97>> ELSE <<>>) \o wide
+                pv   == (IF idx[3] = 2 THEN <<97>> ELSE <<>>) \o Cat([i \in 1..len |-> B("%C3%A9")])
+                L1   == CASE idx[2] = 1 -> [b.L EXCEPT !.hdrs = @ \o << <<B("X-Amz-Meta-Long"), v>> >>]
+                          [] idx[2] = 2 -> [b.L EXCEPT !.path = B("/") \o pv]
+                          [] idx[2] = 3 -> [b.L EXCEPT !.query = B("k=") \o pv]
+                          [] idx[2] = 4 -> [b.L EXCEPT !.hasToken = TRUE, !.token = pv]
+                          [] idx[2] = 5 -> [b.L EXCEPT !.method = B("POST"), !.body = v]
+                          [] idx[2] = 6 -> [b.L EXCEPT !.path = B("/") \o v, !.query = B("k=") \o v]   \* raw UTF-8 in the target
+            IN [b EXCEPT !.L = [L1 EXCEPT !.signed = SignAll(L1)]]
       [] Family = "forever" ->
             \* a provider that never becomes ready / never answers, for a valid request, one refused before the
             \* provider is consulted, and one with a wrong signature
@@ -773,7 +851,7 @@ BundleOf ==
       [] Family = "ioerr" ->
             \* foreign errors of I/O types a retrying implementation would consider transient
             LET b == Bundle0(CarrierOf(idx[3]))
-                kinds == <<"io_timedout", "io_interrupted", "io_wouldblock", "io_reset">>
+                kinds == <<"io_timedout", "io_interrupted", "io_wouldblock", "io_reset", "own_keytoolong", "fmt", "parse_int", "message">>
             IN IF idx[2] = 1 THEN [b EXCEPT !.script.answer = "foreign", !.script.errKind = kinds[idx[1]]]
                ELSE [b EXCEPT !.script.ready = "foreign", !.script.errKind = kinds[idx[1]]]
       [] Family = "logical" ->
@@ -827,6 +905,7 @@ BundleOf ==
                                   !.body = IF idx[5] = 3 THEN <<>> ELSE Bodies[idx[6] + 1], !.query = Queries[idx[4]]]
             IN [b EXCEPT !.L = [L1 EXCEPT !.signed = SignAll(L1)], !.cfg.bodykind = kinds[idx[5]],
                          !.cfg.provider = IF idx[3] % 2 = 0 THEN "fn" ELSE "scripted",
+                         !.post = IF idx[2] % 2 = 0 THEN << [k |-> "uripre", v |-> B("http://example.amazonaws.com:8080")] >> ELSE <<>>,
                          !.script.principal = 100 * idx[2] + 10 * idx[3] + idx[4]]
 
 Case == CaseOfBundle(BundleOf, <<Family>> \o idx)
